@@ -257,7 +257,7 @@ class Decider:
             r1 = self._a1(A, ng, self.t_short, name)
             if r1 == "unsat":
                 return self._proved(A, "A1", t0, name)
-        rb, model = self._phase_b(goal, A, first_round=1)
+        rb, model = self._phase_b(goal, A, first_round=1, rounds=(1 if _SLOW["unknowns"] >= 3 else None))
         if rb == "sat":
             return dict(verdict="sat", phase="B", ms=1000 * (time.time() - t0), model=model)
         if not goal.is_const and self.t_long > self.t_short and _SLOW["unknowns"] < 3:
